@@ -40,14 +40,17 @@ def scenario_lines(header, events, obs):
         lines.append(e)
         lines.append("bc-state")
     mm = len(lines)
-    lines += ["mon-model-c06", "mon-model-c10", "mon-model-c06r", "mon-model-r06", "mon-model-r10"]
+    lines += ["mon-model-c06", "mon-model-c10", "mon-model-c06r", "mon-model-r06", "mon-model-r10", "mon-model-bytes"]
     lines.append("t-new %d %d %s" % (header[0], header[1], ",".join(header[2]) if header[2] else "-"))
     for e, ol in zip(events, obs):
         lines.append("t-ev " + e)
         for o in ol:
             lines.append("t-ob " + o)
     mi = len(lines)
-    lines += ["mon-c06", "mon-c10", "mon-c06r", "mon-r06", "mon-r10"]
+    # mon-bytes: framing x broker client on raw bytes, per connection, whole-stream parse (Afkak/BrokerClientBytes.lean);
+    # conn-logs: the per-connection logs it cuts the trace into (compared with the driver's own record of what each
+    # connection's transport was handed: BCRun.rx)
+    lines += ["mon-c06", "mon-c10", "mon-c06r", "mon-r06", "mon-r10", "mon-bytes", "conn-logs"]
     return lines, ev_idx, mm, mi
 
 
@@ -90,10 +93,11 @@ def compare_one(header, events, obs, states, got, base, ev_idx, mm, mi):
             return good(x)
 
     OK = _OK()
-    mods = got[base + mm: base + mm + 5]
+    mods = got[base + mm: base + mm + 6]
     if out["dis"] is None and any(x not in OK for x in mods):
-        out["monmodel"] = dict(zip(["c06", "c10", "c06-routing", "r06", "r10"], mods))
-    c6, c10, c6r, r6, r10 = got[base + mi: base + mi + 5]
+        out["monmodel"] = dict(zip(["c06", "c10", "c06-routing", "r06", "r10", "bytes"], mods))
+    c6, c10, c6r, r6, r10, cb = got[base + mi: base + mi + 6]
+    out["connlogs"] = got[base + mi + 6]
     # how much of the implementation's trace the flat monitors judged
     if c10 == ["ok"] or c6 == ["ok"]:
         out["flatcov"] = (len(events), len(events))
@@ -101,7 +105,7 @@ def compare_one(header, events, obs, states, got, base, ev_idx, mm, mi):
         out["flatcov"] = (int(c10[0].split()[1]), len(events))
     else:
         out["flatcov"] = None
-    if ["bad-op"] in (c6, c10, c6r, r6, r10):
+    if ["bad-op"] in (c6, c10, c6r, r6, r10, cb):
         # an observation of the implementation is outside the vocabulary of the model: not a verdict of the
         # monitor but a difference between model and implementation
         if out["dis"] is None:
@@ -119,11 +123,42 @@ def compare_one(header, events, obs, states, got, base, ev_idx, mm, mi):
             out["c06"] = ["routing " + c6r[0]]
         elif r6 not in OK:
             out["c06"] = ["reentrant " + r6[0]]
+        elif cb not in OK:
+            out["c06"] = ["bytes " + cb[0]]
         if c10 not in OK:
             out["c10"] = c10
         elif r10 not in OK:
             out["c10"] = ["reentrant " + r10[0]]
     return out
+
+
+def rx_problems(run, r):
+    """The per-connection logs the Lean fold (`conn-logs`, Afkak/BrokerClientBytes.lean) cuts the recorded trace into
+    against the driver's own record of which connection's transport was handed which bytes (BCRun.rx): same
+    connections, same byte strings; and every log in order (`logOk`).  Only when the flat monitors judged the whole
+    trace (the logs are those of the flat prefix)."""
+    cov = r.get("flatcov")
+    logs = r.get("connlogs")
+    if cov is None or cov[0] != cov[1] or logs is None or logs == ["bad-op"]:
+        return []
+    want = {}
+    for cid, data in run.rx:
+        want[cid] = want.get(cid, b"") + data
+    got, probs = {}, []
+    for ln in logs:
+        w = ln.split()
+        if len(w) != 6 or w[0] != "log":
+            return ["conn-logs: unparsable answer %r" % ln]
+        got[int(w[1])] = b"" if w[2] == "-" else bytes.fromhex(w[2])
+        if w[5] != "1" and r.get("c06") is None:
+            probs.append("conn-logs: log of connection %s is not in order (logOk) although mon-bytes accepted" % w[1])
+    for cid, data in want.items():
+        if got.get(cid) != data:
+            probs.append("connection %d: transport was handed %s, the Lean per-connection log has %s" % (cid, data.hex(), got.get(cid, b"<no log>").hex() if isinstance(got.get(cid), bytes) else "<no log>"))
+    for cid, data in got.items():
+        if data and cid not in want:
+            probs.append("connection %d: the Lean per-connection log has bytes %s the transport never was handed" % (cid, data.hex()))
+    return probs
 
 
 def check_batch(scenarios):
@@ -142,7 +177,7 @@ def check_literal(header, events):
     with instrumented():
         obs, states, run = impl_run(header, events)
     res = check_batch([(header, events, obs, states)])[0]
-    probs = check_server_side(run, obs) + run.harness_errors
+    probs = check_server_side(run, obs) + run.harness_errors + rx_problems(run, res)
     return res, obs, probs
 
 
@@ -287,12 +322,19 @@ def run_shard(seed, n, profiles, maxlen=None, prefix=None, mons=("c06", "c10"), 
             obs2, states, run2 = impl_run(header, events)
             if obs2 != obs:
                 probs = probs + ["literal replay differs from the online run"]
-            full.append((header, events, obs, states, probs))
-    results = check_batch([(h, ev, ob, st) for h, ev, ob, st, _ in full])
+            full.append((header, events, obs, states, probs, run2))
+    results = check_batch([(h, ev, ob, st) for h, ev, ob, st, _, _ in full])
     summ = {"n": len(full), "events": 0, "hist": {}, "dis": [], "mon": [], "monmodel": [], "distinct": [], "samples": [], "whitebox": 0}
     hist = summ["hist"]
-    for (header, events, obs, states, probs), r in zip(full, results):
+    for (header, events, obs, states, probs, run2), r in zip(full, results):
         summ["events"] += len(events)
+        rxp = rx_problems(run2, r)
+        probs = probs + rxp
+        nlog = len(r.get("connlogs") or [])
+        if nlog and r.get("flatcov") and r["flatcov"][0] == r["flatcov"][1]:
+            hist["bytes per-connection logs compared with the transport record"] = hist.get("bytes per-connection logs compared with the transport record", 0) + nlog
+            if nlog >= 2 and len(set(c for c, _ in run2.rx)) >= 2:
+                hist["sc bytes_on_two_or_more_connections"] = hist.get("sc bytes_on_two_or_more_connections", 0) + 1
         if states is not None:
             summ["whitebox"] += 1
         for e, ol in zip(events, obs):
